@@ -2,6 +2,8 @@
 #include "vol_common.h"
 #include "ref/ref_lzh.h"
 #include "Archive/VolFile.h"
+#include <cstdio>
+#include <sys/types.h>
 
 using namespace verif;
 using namespace volgen;
@@ -136,6 +138,13 @@ void read_case(const RefArchive& a0, Stats& st, bool sample, Tape* tp = nullptr,
 		V_CHECK(guarded([&] { v->OpenStream(bad); }) == Out::Err, "OpenStream(" << bad << ") accepted with " << a.ms.size() << " members (+" << a.o.unusedSlots << " unused slots)");
 		V_CHECK(guarded([&] { v->ExtractFile(bad, "%o/x.bin"); }) == Out::Err, "ExtractFile(" << bad << ") accepted with " << a.ms.size() << " members (+" << a.o.unusedSlots << " unused slots)");
 	}
+	// the convenience entry point: ExtractAllFiles writes, for every member, what ExtractFile writes (only when every member is of a kind the library expands)
+	{ bool all = !a.ms.empty(); for (auto& m : a.ms) if (m.comp != refvol::CompUncompressed && m.comp != refvol::CompLZH) all = false;
+	  if (all) { mkdirs("%o/all/"); for (auto& m : a.ms) remove(("%o/all/" + m.name).c_str());
+	    std::string wa; Out oa = guarded([&] { v->ExtractAllFiles("%o/all"); }, &wa);
+	    V_CHECK(oa == Out::Ok, "ExtractAllFiles of a conforming archive threw: " << wa);
+	    for (size_t i = 0; i < a.ms.size(); ++i) { std::vector<uint8_t> ex; read_file("%o/all/" + a.ms[i].name, ex); remove(("%o/all/" + a.ms[i].name).c_str()); V_CHECK(ex == a.expanded[i], "ExtractAllFiles wrote " << ex.size() << " bytes for member " << i << " " << jstr(a.ms[i].name) << (a.ms[i].comp == refvol::CompLZH ? " (LZH)" : "") << ", expected " << a.expanded[i].size() << " - or other bytes"); }
+	    st.cls("read:extract_all_files"); } }
 	// a session of calls in tape-chosen (or enumerated) order on the same object: streams and extractions of the same members again, refused calls between them
 	if (!a.ms.empty() && (tp || fixedOps)) {
 		std::vector<std::string> names; std::vector<std::vector<uint8_t>> streams; std::vector<char> can;
@@ -150,6 +159,49 @@ void read_case(const RefArchive& a0, Stats& st, bool sample, Tape* tp = nullptr,
 	if (lzh) st.cls("read:lzh_member");
 	st.cls("read:members:" + std::to_string(std::min<size_t>(a.ms.size(), 8)));
 	if (!a.ms.empty()) { uint64_t h = hmix(a.o.unusedSlots, a.o.indexLenExtra * 8 + a.o.namePadWords); for (auto& m : a.ms) h = fnv1a(m.name.data(), m.name.size(), fnv1a(m.payload.data(), m.payload.size(), h)); st.nt(h ^ 0x22); }
+}
+// A conforming archive larger than 2 GiB, written as a sparse file by the harness: a first member of 'big' bytes (a hole, with marker bytes at
+// both ends) followed by two small members whose blocks start around and beyond 2^31.  Names, sizes, streams and extraction of the late members
+// must work like anywhere else (offsets are 32-bit fields; nothing in the format stops at 2^31).
+void huge_sparse_case(uint32_t big, Stats& st) {
+	std::vector<refvol::Member> ms(3); ms[0].name = "a_huge.bin"; ms[1].name = "m_late.txt"; ms[2].name = "z_last.dat";
+	ms[1].payload = {'l', 'a', 't', 'e', '!', 1, 2}; ms[2].payload.assign(5000, 0); for (size_t i = 0; i < 5000; ++i) ms[2].payload[i] = uint8_t(i * 7 + 3);
+	for (auto& m : ms) m.sizeField = uint32_t(m.payload.size());
+	std::vector<uint8_t> small = refvol::encode(ms);              // layout with an EMPTY first member: header, then the three blocks
+	refvol::Loose L; V_CHECK(refvol::locate(small, L) && L.entries.size() == 3, "harness: reference layout");
+	uint32_t first = L.entries[0].blockOffset; uint64_t shift = (uint64_t(big) + 3) & ~uint64_t(3);
+	V_CHECK(uint64_t(L.entries[2].blockOffset) + shift + 8 + 5000 < (uint64_t(1) << 32), "harness: offsets must fit 32 bits");
+	std::vector<uint8_t> head(small.begin(), small.begin() + first);
+	auto patch32 = [&](size_t at, uint32_t v) { for (int j = 0; j < 4; ++j) head[at + size_t(j)] = uint8_t(v >> (8 * j)); };
+	patch32(L.indexAt + 8, big);                                                                  // entry 0: size
+	patch32(L.indexAt + 14 + 4, uint32_t(L.entries[1].blockOffset + shift)); patch32(L.indexAt + 28 + 4, uint32_t(L.entries[2].blockOffset + shift));
+	std::string vp = "%o/huge.vol"; mkdirs("%o/"); remove(vp.c_str());
+	FILE* f = fopen(vp.c_str(), "wb"); V_CHECK(f, "harness: cannot create the sparse archive");
+	fwrite(head.data(), 1, head.size(), f);
+	uint8_t vb[8] = {'V', 'B', 'L', 'K', uint8_t(big), uint8_t(big >> 8), uint8_t(big >> 16), uint8_t((big >> 24) | 0x80)}; fwrite(vb, 1, 8, f);
+	const uint8_t markA[4] = {0xA1, 0xA2, 0xA3, 0xA4}, markZ[4] = {0xF1, 0xF2, 0xF3, 0xF4};
+	fwrite(markA, 1, 4, f); fseeko(f, off_t(first) + 8 + off_t(big) - 4, SEEK_SET); fwrite(markZ, 1, 4, f);
+	fseeko(f, off_t(first) + 8 + off_t(shift), SEEK_SET); fwrite(small.data() + first + 8, 1, small.size() - first - 8, f);   // the two late blocks, verbatim
+	fclose(f);
+	std::string what; std::unique_ptr<VolFile> v;
+	Out o = guarded([&] { v = std::make_unique<VolFile>(vp); }, &what);
+	V_CHECK(o == Out::Ok, "conforming archive of " << (uint64_t(first) + 8 + shift + small.size() - first - 8) << " bytes (first member " << big << " bytes) refused: " << what);
+	V_CHECK(v->GetCount() == 3, "count");
+	for (size_t i = 0; i < 3; ++i) { V_CHECK(v->GetName(i) == ms[i].name && v->GetIndex(ms[i].name) == i, "member " << i << " name / lookup"); V_CHECK(v->GetSize(i) == (i ? ms[i].payload.size() : big), "member " << i << " size " << v->GetSize(i)); }
+	for (size_t i : {size_t(1), size_t(2), size_t(1)}) {
+		std::unique_ptr<OP2Utility::Stream::BidirectionalReader> s;
+		o = guarded([&] { s = v->OpenStream(i); }, &what);
+		V_CHECK(o == Out::Ok, "OpenStream(" << i << ") of a member whose block starts at file offset " << (uint64_t(L.entries[i].blockOffset) + shift) << " threw: " << what);
+		V_CHECK(s->Length() == ms[i].payload.size(), "late member stream length"); std::vector<uint8_t> got(ms[i].payload.size()); s->Read(got.data(), got.size());
+		V_CHECK(got == ms[i].payload, "stream of a member beyond 2 GiB delivers other bytes");
+		std::string xp = "%o/huge_x.bin"; o = guarded([&] { v->ExtractFile(i, xp); }, &what); V_CHECK(o == Out::Ok, "ExtractFile(" << i << ") beyond 2 GiB threw: " << what);
+		std::vector<uint8_t> ex; read_file(xp, ex); remove(xp.c_str()); V_CHECK(ex == ms[i].payload, "extraction of a member beyond 2 GiB wrote other bytes");
+		auto sn = static_cast<ArchiveFile&>(*v).OpenStream(case_variant(ms[i].name, 0x15)); std::vector<uint8_t> gn(size_t(sn->Length())); sn->Read(gn.data(), gn.size()); V_CHECK(gn == ms[i].payload, "OpenStream by name beyond 2 GiB");
+	}
+	{ auto s0 = v->OpenStream(0); V_CHECK(s0->Length() == big, "huge member stream length " << s0->Length()); uint8_t b4[4]; s0->Read(b4, 4); V_CHECK(!memcmp(b4, markA, 4), "first bytes of the huge member");
+	  s0->Seek(uint64_t(big) - 4); s0->Read(b4, 4); V_CHECK(!memcmp(b4, markZ, 4), "last bytes of the huge member (position " << uint64_t(big) - 4 << ")"); V_CHECK(s0->Position() == big, "position at the end of the huge member"); }
+	v.reset(); remove(vp.c_str());
+	st.cls("read:archive_beyond_2GiB(sparse)"); st.nt(hmix(big, 0x2619));
 }
 } // namespace
 
@@ -192,6 +244,8 @@ void run_sweep(Stats& st) {
 		a.o.unusedSlots = unused; a.o.unusedFill = 0xDEADBEEF; a.o.indexLenExtra = extra; a.o.namePadWords = pad;
 		read_case(a, st, false);
 	}
+	// archives beyond 2 GiB (sparse): the second member's block starts below, at and beyond 2^31
+	for (uint32_t big : {0x7FFFFF00u, 0x7FFFFFB0u, 0x7FFFFFFCu, 0x7FFFFFFFu}) { if (!sw("huge_sparse", big)) continue; huge_sparse_case(big, st); }
 	// every three-call session over {extract, extract onto a directory, stream, stream kept open} x three members (plain 5 bytes, LZH, plain 8 bytes
 	// - a multiple of four, so the next block follows without padding) on one object, then a closing pass over all members
 	for (unsigned x = 0; x < 12; ++x) for (unsigned y = 0; y < 12; ++y) for (unsigned z = 0; z < 12; ++z) {
